@@ -211,12 +211,19 @@ func TestC18(t *testing.T) {
 				payload, dataSrc = &p, &p
 			case "id":
 				wantID = fmt.Sprintf("id-%d-%d", idx, cr.Intn(1000))
+				if cr.Intn(6) == 0 {
+					// the id is the payload's ID(), as it is: leading or trailing white space, or white space only
+					wantID = rt.Pick(cr, []string{" " + wantID, wantID + "\n", "\t" + wantID + "  ", " ", "\n"})
+				}
 				p := &ceID{cePlain: base, id: wantID}
 				payload, dataSrc = p, p
 			case "data":
 				payload, dataSrc = &ceData{cePlain: base, data: data}, data
 			case "both":
 				wantID = fmt.Sprintf("id-%d-%d", idx, cr.Intn(1000))
+				if cr.Intn(6) == 0 {
+					wantID = rt.Pick(cr, []string{" " + wantID, wantID + "\n", "\t" + wantID + "  ", " "})
+				}
 				payload, dataSrc = &ceBoth{cePlain: base, id: wantID, data: data}, data
 			case "emptyid":
 				p := &ceID{cePlain: base, id: ""}
